@@ -408,7 +408,8 @@ def collect_cc(prop, tier):
                                                                     only=["U1", "U4", "U6", "U8"] if prop == "C14" and tier == "quick" else None))
     if prop in ("C04", "C05"):
         import egop
-        extra_cov = dict(extra_cov, operational_matcher=egop.run_matches(tier, tables, prop))
+        extra_cov = dict(extra_cov, operational_matcher=egop.run_matches(tier, tables, prop,
+                                                                       only=["U4", "U13"] if prop == "C05" and tier == "quick" else None))
     others = {}
     for f in findings:
         if f["prop"] != prop:
